@@ -62,7 +62,7 @@ def run(ctx):
                         "suspension (supervisor Suspend/Resume directives) is not part of the model",
                         "an incarnation = the events between one PreStart and the next"]
     # ---- generate, run the implementation
-    scs = U.gen_scenarios(ctx, False)
+    scs = U.gen_scenarios(ctx, True)     # expectations for the repaired tryPassivation first
 
     def write_and_run(scs, run_pat):
         with open(os.path.join(ctx.work, "c06_model_in.jsonl"), "w") as f:
@@ -80,13 +80,13 @@ def run(ctx):
     if rc != 0 or len(mouts) != len(scs) or len(pouts) < 24:
         ctx.tie_broken("go-harness C06 (paths + model scenarios)", out)
     # ---- which tryPassivation does the tree have?  By behaviour: PostStop count in the special schedule
-    fp = False
+    fp = True
     for po in pouts:
         if po["variant"] == "passivation-entry-fires-after-stop":
             n_post = sum(1 for e in po["events"] if e["who"] == "C" and e["kind"] == "postB")
             fp = (n_post <= 1) and "did-not-fire" not in po.get("note", "")
-    if fp and len(mouts) == len(scs):
-        scs = U.gen_scenarios(ctx, True)
+    if (not fp) and len(mouts) == len(scs):
+        scs = U.gen_scenarios(ctx, False)
         rc, out = write_and_run(scs, "^TestVerifC06Model$")
         mouts = read_jsonl(os.path.join(ctx.work, "c06_model_out.jsonl"))
         if rc != 0 or len(mouts) != len(scs):
@@ -188,10 +188,10 @@ Eval vm_compute in summary.
 
 
 META = {
-    "ready": False,
+    "ready": True,
     "category": "proof",
     "technique": "Rocq inductive invariants over a hand-written executable small-step model + scenario conformance on real actors + per-stop-path event oracle",
-    "text": "",
+    "text": "Eleven theorems over a small-step model of one actor's lifecycle (init, Tell split at its check/enqueue point, turns, PoisonPill on the turn, Shutdown from any other goroutine, tryPassivation, re-initialisation; any number of senders and stoppers, any interleaving): PostStop at most once per incarnation on every path (for tryPassivation re-checking the running bit, fix c7ca1aa; witness of the double PostStop for the previous code), PreStart before the first Receive for a spawn and 'never before PreStart began' for every incarnation, all four clauses when off-turn stops do not overlap a turn (C06_partial), clauses 2-4 with no assumption on the PoisonPill path; refutation witnesses for overlap (off-turn Shutdown, passivation), Receive after PostStop began, Receive during a restart's PreStart. Every run: generated driver sequences on a real actor compared with the Coq model after every action (vm_compute), every stop path x {idle, inside Receive} and the special schedules on real actor systems with the four-clause oracle on recorded events.",
     "design_ref": "DESIGN.md 7/C06",
-    "level_note": "",
+    "level_note": "Trusted: Coq kernel, the hand-written model (tied each run), one worker per actor at a time (C01) as an assumption, Go runtime for un-gated parts. The off-turn overlap is a design-level behaviour listed in known_findings per stop path.",
 }
